@@ -20,6 +20,8 @@
 (*   "codetrail"  code followed by a TRAILING directive comment            *)
 (*   "stmttrail"  a statement followed by a trailing directive comment     *)
 (*   "sameline"   a directive comment and then a statement on one line     *)
+(*   "strdir"     code whose string literal contains the text of a block   *)
+(*                comment directive: not a comment at all                  *)
 (*                                                                         *)
 (* Effect(lines, i) for a statement-bearing line i:                        *)
 (*   the nearest non-blank line above i decides: a directive line gives    *)
@@ -82,7 +84,7 @@ AtMostOneLine ==
 (* separated by a code or comment line: no effect *)
 SeparatedMeansNone ==
   \A i \in 1..Len(lines) : (lines[i] \in StmtLines /\ NearestNonBlankAbove(lines, i) # 0
-                              /\ lines[NearestNonBlankAbove(lines, i)] \in {"code", "attr", "cmt", "cmtextra", "stmt", "stmt2", "stmtml"})
+                              /\ lines[NearestNonBlankAbove(lines, i)] \in {"code", "attr", "cmt", "cmtextra", "stmt", "stmt2", "stmtml", "strdir"})
                              => Effect(lines, i) = "none"
 (* a directive placed after the statement never affects it *)
 AfterMeansNone ==
